@@ -284,6 +284,13 @@ class Interp:
             t = smt.SeqConcat(*parts)
         return SSeqV(t, ety)
 
+    def global_object(self, schema):
+        """the modelled stand-in of a module-level object (flask.session, ...)"""
+        cache = self.ghost.setdefault('@globals', {})
+        if schema not in cache:
+            cache[schema] = self.fresh(schema.lower(), schema)
+        return cache[schema]
+
     # ------------------------------------------------------------ decisions
     def assume(self, t):
         if smt.is_true(t):
